@@ -46,6 +46,8 @@ class FrameData(IFLR):
         body = self._frame.obname + write_struct_uvari(self._frame_number)
 
         for s in self._slots:
-            body += s.byteswap().tobytes()
+            # RP66 values are big-endian; convert explicitly rather than assume a little-endian source
+            # (sub-array slots keep the byte order of their source, scalar slots are always native)
+            body += np.asarray(s).astype(s.dtype.newbyteorder('>')).tobytes()
 
         return body
